@@ -37,6 +37,8 @@ def run(an: Analysis, rep):
     rep.rule("R07.5", "no decimal text conversion of unbounded integers", 0)
     from .common import purity
     rep.run(purity, an, rep, "R07.P", ["to_json", "from_json"])
+    from .common import assert_guard_rule as _agrx
+    rep.run(_agrx, an, rep, "R07.G", ["to_json", "from_json"])
     root, defs = load_schema(an)
     enc, cdec = find_json_functions(an)
     rep.run(r071, an, rep, enc, cdec, defs)
